@@ -536,7 +536,11 @@ pub fn read_layers<P: AsRef<Path>>(path: &P) -> Result<Vec<Layer>, ReadNpzError>
     let mut npz = NpzReader::new(file)?;
 
     let mut names = npz.names()?;
-    names.sort_unstable();
+    // order by layer index (numerically, so that "10." follows "9."), then by name
+    names.sort_unstable_by(|a, b| {
+        let index = |name: &String| name.split('.').next().and_then(|x| x.parse::<u64>().ok());
+        index(a).cmp(&index(b)).then_with(|| a.cmp(b))
+    });
 
     let pattern = Regex::new(r"^(\d+)\.([A-Za-z._]*?)(\.npy)?$").unwrap();
 
